@@ -11,7 +11,9 @@ Open Scope Z_scope.
 Record runrec := RunRec {
   rr_tid : nat; rr_opts : opts; rr_faults : list nat; rr_efaults : list nat; rr_cancel : option nat;
   rr_t0 : Z; rr_t1 : Z; rr_res : N;
-  rr_fops : list (nat * fop)   (* foreign operations (another actor, no lock) just before call number n of the run *)
+  rr_fops : list (nat * fop);  (* foreign operations (another actor, no lock) just before call number n of the run *)
+  rr_pfaults : list (nat * list key);  (* Deletes that took effect in part: call number, the covered keys that survived *)
+  rr_kill : option nat         (* the cleaner's process was killed when this call began; its lock expired afterwards *)
 }.
 Record case := Case {
   c_lfe : bool; c_s0 : store; c_runs : list runrec; c_trace : list tev; c_s1 : store
@@ -43,7 +45,8 @@ Fixpoint list_eqb {A} (f : A -> A -> bool) (a b : list A) : bool :=
   end.
 
 (** *** the model on a case *)
-Definition env_of (c : case) (r : runrec) : env := Env (rr_faults r) (rr_efaults r) (rr_cancel r) (c_lfe c).
+Definition env_of (c : case) (r : runrec) : env :=
+  Env (rr_faults r) (rr_efaults r) (rr_cancel r) (c_lfe c) (rr_pfaults r) (rr_kill r).
 
 (** replay the runs (clock = constantly t0 of each run: the harness skips cases whose outcome depends on
     where in [t0,t1] a reading fell); [None] as soon as a result or a call sequence differs *)
@@ -55,8 +58,15 @@ Fixpoint replay (c : case) (runs : list runrec) (s : store) : option store :=
                          | [] => clean (env_of c r) (rr_opts r) (fun _ => rr_t0 r) s
                          | fs => cleani (env_of c r) fs (rr_opts r) (fun _ => rr_t0 r) s
                          end in
-      if N.eqb (result_code res) (rr_res r) &&
-         list_eqb event_eqb (rev (lg st')) (proj (rr_tid r) (c_trace c))
+      if match rr_kill r with
+         | Some n =>
+             (* a killed run returns nothing; its calls are the first n of the model's run under [kill_at]
+                (Kill.killed_is_model), which leaves the same storage *)
+             list_eqb event_eqb (firstn n (rev (lg st'))) (proj (rr_tid r) (c_trace c))
+         | None =>
+             N.eqb (result_code res) (rr_res r) &&
+             list_eqb event_eqb (rev (lg st')) (proj (rr_tid r) (c_trace c))
+         end
       then replay c rest (sto st')
       else None
   end.
@@ -130,14 +140,24 @@ Definition all_fops (c : case) : list fop := flat_map (fun r => map snd (rr_fops
 Definition s0f (c : case) : store := fold_left (fun s f => fapply f s) (all_fops c) (c_s0 c).
 Definition touched (c : case) (k : key) : bool :=
   existsb (fun f => match f with FPut k' _ => seqb k' k | FDel k' => covers k' k end) (all_fops c).
+(** several actors at several instants: the storage as the OTHER actors alone would have made it after each
+    of their operations is S_0 = s0, S_1, .., S_n = sf. A deletion of k by a cleaner is justified by what one
+    of these states held -- for a key the others touched: one of the states from the last such operation on
+    (what a cleaner decided before that operation was overwritten by it; deleting afterwards on the strength of
+    the older state is the check-then-delete window, tracked as a known finding) *)
+Definition ftouches (k : key) (f : fop) : bool :=
+  match f with FPut k' _ => seqb k' k | FDel k' => covers k' k end.
+Fixpoint states_since_touch (k : key) (fs : list fop) (s : store) : list store :=
+  let rest := match fs with [] => [] | f :: r => states_since_touch k r (fapply f s) end in
+  if existsb (ftouches k) fs then rest else s :: rest.
 (** ([sf] = [s0f c], computed once; [just] is a thunk: evaluation is call-by-value) *)
 Definition diff_ok_f (c : case) (sf : store) (k : key) : bool :=
   let s1 := c_s1 c in
   let t := touched c k in
   let base := if t then sf else c_s0 c in
   let just := fun _ : unit =>
-    existsb (fun r => if justified (rr_opts r) (rr_t1 r) sf k then true
-                      else if t then false else justified (rr_opts r) (rr_t1 r) (c_s0 c) k) (c_runs c) in
+    existsb (fun st => existsb (fun r => justified (rr_opts r) (rr_t1 r) st k) (c_runs c))
+            (states_since_touch k (all_fops c) (c_s0 c)) in
   (if file_eqb (file base k) (file s1 k) then true else
    match file s1 k with
    | None => just tt
@@ -175,7 +195,8 @@ Fixpoint runs_ok (c : case) (runs : list runrec) (rec : option Z) : bool :=
        end) &&
       (* records when it ran: success = skipped or recorded; deletions are followed by the record *)
       (negb (N.eqb (rr_res r) 0) || stored_ok l || negb (has_kind does_work l)) &&
-      (negb (has_kind (fun k => match k with KDelete => true | _ => false end) l) ||
+      (match rr_kill r with Some _ => true | None => false end ||
+       negb (has_kind (fun k => match k with KDelete => true | _ => false end) l) ||
        has_kind (fun k => match k with KStore => true | _ => false end) l) &&
       runs_ok c rest (if stored_ok l then Some (rr_t0 r) else rec)
   end.
@@ -186,8 +207,24 @@ Definition rec0 (s0 : store) : option Z :=
   | None => None
   end.
 
+(** a killed cleaner never unlocks: its lock expires (FileStorage: the lock file goes stale and the next
+    cleaner removes it, C08; the harness lets that happen before the next cleaner starts). For the lock
+    discipline the expiry is an event after the last call of each killed run. *)
+Fixpoint expire_after_last (t : nat) (tr : list tev) : list tev * bool :=
+  match tr with
+  | [] => ([], false)
+  | x :: r =>
+      let '(r', done) := expire_after_last t r in
+      if done then (x :: r', true)
+      else if Nat.eqb (te_tid x) t then (x :: TEv t (Ev KUnlock spec_lock false) :: r', true)
+      else (x :: r', false)
+  end.
+Definition lock_trace (c : case) : list tev :=
+  fold_left (fun tr r => match rr_kill r with Some _ => fst (expire_after_last (rr_tid r) tr) | None => tr end)
+            (c_runs c) (c_trace c).
+
 Definition spec_ok (c : case) : bool :=
-  under_lock None (c_trace c) &&
+  under_lock None (lock_trace c) &&
   match all_fops c with
   | [] => forallb (diff_ok c) (map fst (c_s0 c) ++ map fst (c_s1 c))
   | _ => let sf := s0f c in forallb (diff_ok_f c sf) (map fst (c_s0 c) ++ map fst sf ++ map fst (c_s1 c))
@@ -257,15 +294,17 @@ Definition get_opts : dec opts :=
   i <- get_z ;; a <- get_bool ;; b <- get_bool ;; g <- get_z ;; n <- get_pstr ;; ret (Opts i a b g n).
 Definition get_run : dec runrec :=
   t <- get_nat ;; o <- get_opts ;; f <- get_list get_nat ;; ef <- get_list get_nat ;; c <- get_opt get_nat ;;
-  t0 <- get_z ;; t1 <- get_z ;; r <- get_n ;; ret (RunRec t o f ef c t0 t1 r []).
+  t0 <- get_z ;; t1 <- get_z ;; r <- get_n ;; ret (RunRec t o f ef c t0 t1 r [] [] None).
 (** foreign operation: call index, kind (0 Store, 1 Delete), key, node (Store only) *)
 Definition get_fop (tbl : list str) (vals : list (bool * cls)) : dec (nat * fop) :=
   i <- get_nat ;; kd <- get_z ;; ky <- get_key tbl ;;
   if kd =? 0 then n <- get_node vals ;; ret (i, FPut ky n) else ret (i, FDel ky).
-Definition with_fops (r : runrec) (fs : list (nat * fop)) : runrec :=
-  RunRec (rr_tid r) (rr_opts r) (rr_faults r) (rr_efaults r) (rr_cancel r) (rr_t0 r) (rr_t1 r) (rr_res r) fs.
+Definition with_fops (r : runrec) (fs : list (nat * fop)) (pf : list (nat * list key)) (kl : option nat) : runrec :=
+  RunRec (rr_tid r) (rr_opts r) (rr_faults r) (rr_efaults r) (rr_cancel r) (rr_t0 r) (rr_t1 r) (rr_res r) fs pf kl.
 Definition get_run_f (tbl : list str) (vals : list (bool * cls)) : dec runrec :=
-  r <- get_run ;; fs <- get_list (get_fop tbl vals) ;; ret (with_fops r fs).
+  r <- get_run ;; fs <- get_list (get_fop tbl vals) ;;
+  pf <- get_list (get_pair get_nat (get_list (get_key tbl))) ;; kl <- get_opt get_nat ;;
+  ret (with_fops r fs pf kl).
 Definition opk_of (n : Z) : option opk :=
   match n with
   | 0 => Some KLock | 1 => Some KUnlock | 2 => Some KLoad | 3 => Some KList
@@ -306,7 +345,7 @@ Definition explain_line (l : list Z) : list Z :=
   match decode get_case l with
   | Some c =>
       explain_runs c (c_runs c) (c_s0 c) ++
-      [-2; if under_lock None (c_trace c) then 1 else 0;
+      [-2; if under_lock None (lock_trace c) then 1 else 0;
        if match all_fops c with
           | [] => forallb (diff_ok c) (map fst (c_s0 c) ++ map fst (c_s1 c))
           | _ => let sf := s0f c in forallb (diff_ok_f c sf) (map fst (c_s0 c) ++ map fst sf ++ map fst (c_s1 c))
